@@ -651,7 +651,7 @@ mod verif_driver_compile {
     // ---- C10 (reproducibility, whole transaction): a template with several elements in EVERY list-like section compiled
     // repeatedly through the public entry point gives byte-identical payloads, and the outputs keep their source order.
     // BOUND: one template (3 inputs, 3 references, 3 collateral, 3 signers, 3 outputs, 2 mints + 1 burn over 2 policies,
-    // 2 withdrawals, 3 metadata entries, 3 Plutus witnesses, validity), 33 compilations.
+    // 2 withdrawals, 3 metadata entries, 3 Plutus witnesses, 4 native witnesses, validity), 33 compilations.
     #[test]
     fn entry_point_reproducible() {
         let mut n = 0;
@@ -680,6 +680,11 @@ mod verif_driver_compile {
             adhoc("plutus_witness", vec![("version", num(3)), ("script", tir::Expression::Bytes(vec![0x51, 1, 1, 0, 9]))]),
             adhoc("plutus_witness", vec![("version", num(3)), ("script", tir::Expression::Bytes(vec![0x51, 1, 1, 0, 2]))]),
             adhoc("plutus_witness", vec![("version", num(3)), ("script", tir::Expression::Bytes(vec![0x51, 1, 1, 0, 5]))]),
+            // native scripts `[0, keyhash]` (require this signature)
+            adhoc("native_witness", vec![("script", tir::Expression::Bytes([vec![0x82, 0x00, 0x58, 0x1c], vec![9u8; 28]].concat()))]),
+            adhoc("native_witness", vec![("script", tir::Expression::Bytes([vec![0x82, 0x00, 0x58, 0x1c], vec![2u8; 28]].concat()))]),
+            adhoc("native_witness", vec![("script", tir::Expression::Bytes([vec![0x82, 0x00, 0x58, 0x1c], vec![5u8; 28]].concat()))]),
+            adhoc("native_witness", vec![("script", tir::Expression::Bytes([vec![0x82, 0x00, 0x58, 0x1c], vec![7u8; 28]].concat()))]),
         ];
         tx.metadata = vec![tir::Metadata { key: num(674), value: tir::Expression::String("b".into()) }, tir::Metadata { key: num(1), value: num(2) }, tir::Metadata { key: num(99), value: tir::Expression::Bytes(vec![1, 2]) }];
         tx.validity = Some(tir::Validity { since: num(100), until: num(200) });
